@@ -196,15 +196,18 @@ static thunk_t lookup(const char *n) {
     return NULL;
 }
 
+/* g_hi: for the 16- and 32-bit memory comparisons the cell values 128..255 stand for elements at the top of the element range
+ * (0xFF80.. / 0xFFFFFF80..): same order, but differences that do not fit the next smaller signed type */
+static int g_hi;
 static void put(char *p, int w, long v) {
     if (w == 1) *(unsigned char *)p = (unsigned char)v;
-    else if (w == 2) { uint16_t x = (uint16_t)v; memcpy(p, &x, 2); }
-    else { uint32_t x = (uint32_t)v; memcpy(p, &x, 4); }
+    else if (w == 2) { uint16_t x = (uint16_t)((g_hi && v >= 128 && v <= 255) ? 0xFF00 + v : v); memcpy(p, &x, 2); }
+    else { uint32_t x = (uint32_t)((g_hi && v >= 128 && v <= 255) ? 0xFFFFFF00UL + v : v); memcpy(p, &x, 4); }
 }
 static long get(const char *p, int w) {
     if (w == 1) return *(const unsigned char *)p;
-    if (w == 2) { uint16_t x; memcpy(&x, p, 2); return x; }
-    { uint32_t x; memcpy(&x, p, 4); return (long)x; }
+    if (w == 2) { uint16_t x; memcpy(&x, p, 2); return (g_hi && x >= 0xFF80) ? x - 0xFF00 : x; }
+    { uint32_t x; memcpy(&x, p, 4); return (g_hi && x >= 0xFFFFFF80UL) ? (long)(x - 0xFFFFFF00UL) : (long)x; }
 }
 
 static int read_case(FILE *in, case_t *c) {
@@ -244,6 +247,7 @@ int main(int argc, char **argv) {
         nbytes = (long)c.na * c.w;
         arena = c.place ? R.rw : R.rw + R.rwlen - nbytes;
         memset(R.rw, 0x5C, R.rwlen);
+        g_hi = c.w > 1 && !strncmp(c.fn, "memcmp", 6);
         for (i = 0; i < c.na; i++) put(arena + i * c.w, c.w, c.v[i]);
         memcpy(shadow, R.rw, R.rwlen);
         memset(&r, 0, sizeof r);
